@@ -6,12 +6,29 @@
 //!  * correspondence: the Lean model's `kvsLoad` on the dumped state == the implementation's reads;
 //!    the model's decidable invariants I1 ∧ I2 hold on the dumped state (the hypothesis of theorem
 //!    `kvsLoad_visible`); every compaction the selector chose is `closed` on the state it was
-//!    chosen in (the hypothesis of `compaction_preserves`).
+//!    chosen in (the hypothesis of `compaction_preserves`);
+//!  * selector as a function: at EVERY compaction step (also the ones that choose nothing) the
+//!    Lean function `nextCompaction` on the dumped tree metadata == what `Version::next_compaction`
+//!    handed to the compaction loop (levels, key range, input ids in order); after every operation
+//!    `next_compaction().is_some()` (`verif_status`) == the model's.  A second stream (`selhist`)
+//!    runs selector-centred histories with the byte / file / open-file limits in play and asks the
+//!    real selector again *inside* a running compaction (one compaction in flight), with the nested
+//!    choice performed for real.
 use crate::common::*;
 
 fn tainted(v: Verdict, taint: &Option<String>) -> Verdict {
     match (v, taint) {
         (Verdict::Ok, Some(c)) => Verdict::Taint { class: c.clone() },
+        (v, _) => v,
+    }
+}
+
+/// a failure inside a history in which the trigger of a known finding fired carries that
+/// finding's class (as the other checks of a tainted history do)
+fn tainted_fail(v: Verdict, taint: &Option<String>) -> Verdict {
+    match (v, taint) {
+        (Verdict::Ok, Some(c)) => Verdict::Taint { class: c.clone() },
+        (Verdict::Fail { detail, .. }, Some(c)) => Verdict::Fail { class: c.clone(), detail },
         (v, _) => v,
     }
 }
@@ -134,6 +151,34 @@ pub fn d9_trigger(d: &StateDump) -> bool {
     false
 }
 
+/// trigger of the verifier finding seen in thorough histories (decidable on the manifest history
+/// the harness recorded and the directory): some SST was removed by one edit, added again by a later
+/// edit (a compaction re-created a byte-identical file) and removed again by a still later edit,
+/// and is now in neither sst/ nor trash/ — the verifier unlinked the trash copy when it verified
+/// the first removal and cannot read the file when it reaches the second
+fn recreated_and_removed_again(sim: &Sim) -> Option<String> {
+    for (name, evs) in sim.sst_events.iter() {
+        let mut hit = false;
+        for (i, a) in evs.iter().enumerate() {
+            if a.1 != '-' {
+                continue;
+            }
+            for (j, b) in evs.iter().enumerate().skip(i + 1) {
+                if b.1 != '+' || b.0 <= a.0 {
+                    continue;
+                }
+                if evs.iter().skip(j + 1).any(|c| c.1 == '-' && c.0 > b.0) {
+                    hit = true;
+                }
+            }
+        }
+        if hit && !std::path::Path::new(&format!("{}/sst/{}.sst", sim.root, name)).exists() && !std::path::Path::new(&format!("{}/trash/{}.sst", sim.root, name)).exists() {
+            return Some(name.clone());
+        }
+    }
+    None
+}
+
 fn ents(es: &[Ent]) -> String {
     if es.is_empty() {
         return "-".into();
@@ -166,6 +211,8 @@ pub fn run_history(rec: &mut Recorder, seed: u64, hidx: u64, len: usize, nkeys: 
     let keys: Vec<Vec<u8>> = ALPHABET[..nkeys].iter().map(|k| k.to_vec()).collect();
     let qs = keys.iter().map(|k| hex(k)).collect::<Vec<_>>().join(" ");
     let mut taint: Option<String> = None;
+    let so = SelOpts { mof: 1 << 19, mcb: 1 << 29, mcf: cfg.max_compaction_files, mand_files: cfg.l0_mandatory_files, mand_bytes: 1 << 26 };
+    let mut prev: Option<StateDump> = sim.dump().ok();
     for (step, op) in ops.iter().enumerate() {
         let tag = format!("h{}s{}:{}", hidx, step, op.render());
         if let Op::Reopen = op {
@@ -198,7 +245,15 @@ pub fn run_history(rec: &mut Recorder, seed: u64, hidx: u64, len: usize, nkeys: 
             Op::Verify => {
                 rec.count("op.verify");
                 if sim.last_verify.starts_with("error") {
-                    rec.case(&format!("# {}", tag), "#", Verdict::Fail { class: taint.clone().unwrap_or_else(|| "verifier-rejects-store-history".to_string()), detail: format!("{} {}", tag, sim.last_verify) }, None);
+                    let class = match recreated_and_removed_again(&sim) {
+                        Some(name) => {
+                            rec.count("verifier_error_after_identical_recreation");
+                            rec.aux(&format!("{} verifier error; {} was removed, re-created identically by a later edit and removed again, and is in neither sst/ nor trash/", tag, name));
+                            "sst-removed-recreated-identically-removed-again".to_string()
+                        }
+                        None => "verifier-rejects-store-history".to_string(),
+                    };
+                    rec.case(&format!("# {}", tag), "#", Verdict::Fail { class: taint.clone().unwrap_or(class), detail: format!("{} {}", tag, sim.last_verify) }, None);
                 }
             }
         }
@@ -208,6 +263,19 @@ pub fn run_history(rec: &mut Recorder, seed: u64, hidx: u64, len: usize, nkeys: 
             rec.case(&format!("# {} inside", tag), "#", Verdict::Fail { class: taint.clone().unwrap_or_else(|| "wrong-read-or-missing-log-inside-flush-or-compaction".to_string()), detail: format!("{} {}", tag, pf.iter().take(3).cloned().collect::<Vec<_>>().join("; ")) }, None);
         }
         let chosen = std::mem::take(&mut sim.chosen);
+        // the selector as a function: every selection the compaction loop made in this operation,
+        // and the selection that found nothing when a compaction step did nothing
+        for (b, c) in chosen.iter() {
+            let lv = sel_levels_of_dump(b);
+            let v = tainted_fail(select_oracle(&so, &lv, &[], Some(c), &tag), &taint);
+            select_case(rec, "full", &so, &lv, &[], &render_chosen(Some(c)), v);
+            rec.count("select.step.chosen");
+        }
+        if let (Op::Compact(_), true, Some(b)) = (op, chosen.is_empty(), prev.as_ref()) {
+            let lv = sel_levels_of_dump(b);
+            select_case(rec, "full", &so, &lv, &[], "none", tainted(Verdict::Ok, &taint));
+            rec.count("select.step.none");
+        }
         for (b, c) in chosen.iter() {
             let ins: Vec<String> = c.inputs.iter().map(|d| hex(d)[..12].to_string()).collect();
             let req = format!("kvs closed {} {} :: {}", c.upper_level, state_with_ids(b), ins.join(" "));
@@ -274,6 +342,23 @@ pub fn run_history(rec: &mut Recorder, seed: u64, hidx: u64, len: usize, nkeys: 
         let iv = check_invariants(&d);
         let v = if iv == "ok" { Verdict::Ok } else { Verdict::Fail { class: taint.clone().unwrap_or_else(|| "tree-invariant-violated".to_string()), detail: format!("{} {}", tag, iv) } };
         rec.case(&req, iv, tainted(v, &taint), None);
+        // is anything selectable on this state (the real selector, selection released at once)
+        // (not on a history tainted by D-9: compute_bounds may then panic on its assertions while
+        // the compaction mutex is held)
+        if taint.is_none() {
+            match guarded(std::panic::AssertUnwindSafe(|| sim.kvs().verif_tree().verif_status())) {
+                Ok((_stall, selectable, _n)) => {
+                    select_case(rec, "some", &so, &sel_levels_of_dump(&d), &[], if selectable { "some" } else { "none" }, Verdict::Ok);
+                    rec.count(if selectable { "select.state.some" } else { "select.state.none" });
+                }
+                Err(p) => {
+                    // the selector panicked with the compaction mutex held: the store is unusable
+                    rec.case(&format!("# {} select", tag), "#", Verdict::Fail { class: "selector-panicked".to_string(), detail: format!("{} next_compaction panicked: {}", tag, p) }, None);
+                    break;
+                }
+            }
+        }
+        prev = Some(d);
     }
     rec.add("flushes", sim.flushes);
     rec.add("compactions", sim.compactions);
@@ -283,6 +368,515 @@ pub fn run_history(rec: &mut Recorder, seed: u64, hidx: u64, len: usize, nkeys: 
     sim.close();
 }
 
+// ===================================================== the selector as a function ===============
+
+/// the options the selector reads
+#[derive(Clone, Debug)]
+pub struct SelOpts {
+    pub mof: u64,
+    pub mcb: u64,
+    pub mcf: u64,
+    pub mand_files: u64,
+    pub mand_bytes: u64,
+}
+
+/// the metadata of one file the selector reads
+#[derive(Clone, Debug)]
+pub struct SelF {
+    pub id: String,
+    pub first: Vec<u8>,
+    pub last: Vec<u8>,
+    pub size: u64,
+    pub bts: u64,
+}
+
+pub fn sel_levels_of_dump(d: &StateDump) -> Vec<Vec<SelF>> {
+    d.levels.iter().map(|l| l.iter().map(|f| SelF { id: hex(&f.setsum)[..12].to_string(), first: f.first_key.clone(), last: f.last_key.clone(), size: f.file_size, bts: f.biggest_ts }).collect()).collect()
+}
+
+pub fn sel_levels_of_meta(levels: &[Vec<sst::SstMetadata>]) -> Vec<Vec<SelF>> {
+    levels.iter().map(|l| l.iter().map(|f| SelF { id: hex(&f.setsum)[..12].to_string(), first: f.first_key.clone(), last: f.last_key.clone(), size: f.file_size, bts: f.biggest_timestamp }).collect()).collect()
+}
+
+/// `<lower> <upper> <first> <last> <id> …` | `none`
+pub fn render_chosen(c: Option<&lsmtk::verif::ChosenCompaction>) -> String {
+    match c {
+        None => "none".to_string(),
+        Some(c) => {
+            let mut v = vec![c.lower_level.to_string(), c.upper_level.to_string(), hex(&c.first_key), hex(&c.last_key)];
+            v.extend(c.inputs.iter().map(|d| hex(d)[..12].to_string()));
+            v.join(" ")
+        }
+    }
+}
+
+pub fn select_request(mode: &str, o: &SelOpts, levels: &[Vec<SelF>], ongoing: &[lsmtk::verif::ChosenCompaction]) -> String {
+    let mut s = format!("kvs select {} {} {} {} {} {} {} ::", mode, levels.len(), o.mof, o.mcb, o.mcf, o.mand_files, o.mand_bytes);
+    for (i, l) in levels.iter().enumerate() {
+        for f in l {
+            s.push_str(&format!(" L{}:{}:{}:{}:{}:{}", i, f.id, hex(&f.first), hex(&f.last), f.size, f.bts));
+        }
+    }
+    s.push_str(" ::");
+    for g in ongoing {
+        let ins: Vec<String> = g.inputs.iter().map(|d| hex(d)[..12].to_string()).collect();
+        s.push_str(&format!(" G{}:{}:{}:{}:0:{}", g.lower_level, g.upper_level, hex(&g.first_key), hex(&g.last_key), if ins.is_empty() { "-".to_string() } else { ins.join(",") }));
+    }
+    s
+}
+
+/// the tree invariant the selector relies on (the hypothesis of the Lean theorem
+/// `nextCompaction_closed`), evaluated on the metadata: key ranges non-empty, every level below
+/// level 0 sorted by key with ranges at most touching (I1), file ids distinct
+pub fn select_inv(levels: &[Vec<SelF>]) -> bool {
+    let mut ids: Vec<&str> = vec![];
+    for (i, l) in levels.iter().enumerate() {
+        for (k, f) in l.iter().enumerate() {
+            if f.first > f.last || ids.contains(&f.id.as_str()) {
+                return false;
+            }
+            ids.push(&f.id);
+            if i >= 1 && l[k + 1..].iter().any(|g| f.last > g.first) {
+                return false;
+            }
+        }
+    }
+    true
+}
+
+pub fn select_case(rec: &mut Recorder, mode: &str, o: &SelOpts, levels: &[Vec<SelF>], ongoing: &[lsmtk::verif::ChosenCompaction], observed: &str, v: Verdict) {
+    let req = select_request(mode, o, levels, ongoing);
+    let nfiles: usize = levels.iter().map(|l| l.len()).sum();
+    let observed = if mode == "full" {
+        let inv = select_inv(levels);
+        rec.count(if inv { "select.tree_invariant_holds" } else { "select.tree_invariant_violated" });
+        format!("{} inv={}", observed, if inv { "ok" } else { "violated" })
+    } else {
+        observed.to_string()
+    };
+    rec.case(&req, &observed, v, if nfiles >= 3 { Some(fnv(req.as_bytes())) } else { None });
+}
+
+/// the oracle on one real selection, evaluated on the metadata alone (no model):
+///  * every input is a file of the tree at a level in lower..=upper, named once;
+///  * no input is an input of a compaction in flight;
+///  * *range-closed*: no file that stays lies, in search order and down to the output level, below
+///    an input whose key range it meets (level 0 is searched newest first) — this implies `closed`;
+///  * the open-file budget shared with the compactions in flight is respected.
+pub fn select_oracle(o: &SelOpts, levels: &[Vec<SelF>], ongoing: &[lsmtk::verif::ChosenCompaction], c: Option<&lsmtk::verif::ChosenCompaction>, tag: &str) -> Verdict {
+    let Some(c) = c else { return Verdict::Ok };
+    let ins: Vec<String> = c.inputs.iter().map(|d| hex(d)[..12].to_string()).collect();
+    let fail = |class: &str, what: String| Verdict::Fail { class: class.to_string(), detail: format!("{} levels {}->{} inputs {}: {}", tag, c.lower_level, c.upper_level, ins.join(","), what) };
+    // search order: level 0 by descending newest timestamp (stable sort, reversed), then the levels
+    let mut order: Vec<(usize, &SelF)> = vec![];
+    if !levels.is_empty() {
+        let mut l0: Vec<&SelF> = levels[0].iter().collect();
+        l0.sort_by_key(|f| f.bts);
+        for f in l0.into_iter().rev() {
+            order.push((0, f));
+        }
+        for (i, l) in levels.iter().enumerate().skip(1) {
+            for f in l {
+                order.push((i, f));
+            }
+        }
+    }
+    for (n, i) in ins.iter().enumerate() {
+        if ins[..n].contains(i) {
+            return fail("selector-names-an-input-twice", i.clone());
+        }
+        match order.iter().find(|(_, f)| &f.id == i) {
+            None => return fail("selector-input-not-in-tree", i.clone()),
+            Some((l, _)) if *l < c.lower_level || *l > c.upper_level => return fail("selector-input-outside-its-levels", format!("{} at level {}", i, l)),
+            _ => {}
+        }
+        for g in ongoing {
+            if g.inputs.iter().any(|d| &hex(d)[..12] == i.as_str()) {
+                return fail("selector-chose-input-of-compaction-in-flight", i.clone());
+            }
+        }
+    }
+    let in_flight: usize = ongoing.iter().map(|g| g.inputs.len()).sum();
+    if (ins.len() + in_flight) as u64 >= o.mof {
+        return fail("selector-exceeds-open-file-budget", format!("{} + {} in flight, max_open_files {}", ins.len(), in_flight, o.mof));
+    }
+    for a in 0..order.len() {
+        if !ins.contains(&order[a].1.id) {
+            continue;
+        }
+        for b in a + 1..order.len() {
+            if order[b].0 > c.upper_level || ins.contains(&order[b].1.id) {
+                continue;
+            }
+            let (f, g) = (order[a].1, order[b].1);
+            if f.first <= g.last && g.first <= f.last {
+                return fail("selector-chose-open-compaction", format!("input {} (level {}) meets kept {} (level {})", f.id, order[a].0, g.id, order[b].0));
+            }
+        }
+    }
+    Verdict::Ok
+}
+
+/// the two floating-point expressions of `next_compaction`, evaluated here exactly as the code
+/// writes them, against the model's integer computation
+fn f64_cases(rec: &mut Recorder, seed: u64, n: u64) {
+    fn level_curve(level: usize) -> u64 {
+        if level <= 2 {
+            1
+        } else {
+            (level as f64).log10().ceil() as u64 + 1
+        }
+    }
+    fn level_factor(lower_level: usize) -> f64 {
+        (lower_level as f64 + 1.0).log2() / (lower_level + 1) as f64 + 1.0
+    }
+    let curve: Vec<String> = (0..16usize).map(|l| level_curve(l).to_string()).collect();
+    let factor: Vec<String> = (0..16usize).map(|l| format!("{:016x}", level_factor(l).to_bits())).collect();
+    rec.corr("kvs f64tab", &format!("curve {} factor {}", curve.join(" "), factor.join(" ")), Some(fnv(b"f64tab")));
+    let mut rng = Rng::for_case(seed, 103, 0);
+    let edge: [i64; 16] = [0, 1, -1, 2, 3, 7, -7, 1 << 52, (1 << 53) - 1, 1 << 53, (1 << 53) + 1, -((1 << 53) + 1), i64::MAX, i64::MIN, i64::MIN + 1, i64::MAX - 1];
+    for i in 0..n {
+        let l = rng.range(0, 15) as usize;
+        let score: i64 = match rng.below(5) {
+            0 => edge[rng.below(16) as usize],
+            1 => rng.below(4096) as i64 - 1024,
+            2 => (rng.next() >> rng.range(1, 40)) as i64,
+            3 => -((rng.next() >> rng.range(1, 40)) as i64),
+            // multiples of 8 and 16: the products with the dyadic factors 1.5 / 1.375 / 1.25 are integers
+            _ => (rng.below(1 << 20) as i64) * 16 - (i as i64 % 2) * 8,
+        };
+        let got = (score as f64 * level_factor(l)).ceil() as i64;
+        rec.corr(&format!("kvs scale {} {}", l, score), &got.to_string(), Some(fnv(format!("scale {} {}", l, score).as_bytes())));
+        rec.count("f64.scale_cases");
+    }
+}
+
+// ---------------------------------------------------------------- selector-centred histories ----
+
+#[derive(Clone, Debug)]
+struct SelCfg {
+    stall_files: u64,
+    stall_bytes: u64,
+    mand_files: u64,
+    mand_bytes: u64,
+    mcf: u64,
+    mcb: u64,
+    mof: u64,
+    memtable: u64,
+    target_file: u64,
+    cache: u64,
+}
+
+impl SelCfg {
+    fn gen(rng: &mut Rng, kind: u64) -> SelCfg {
+        let mut c = SelCfg { stall_files: 12, stall_bytes: 1 << 28, mand_files: 4, mand_bytes: 1 << 26, mcf: 64, mcb: 1 << 29, mof: 1 << 19, memtable: 256, target_file: 1 << 22, cache: 1 << 26 };
+        c.memtable = *rng.pick(&[64, 200, 600]);
+        c.target_file = *rng.pick(&[128, 256, 1024, 1 << 22]);
+        c.stall_files = *rng.pick(&[3, 4, 6, 12]);
+        c.mand_files = *rng.pick(&[1, 2, 4, 8]);
+        match kind {
+            // limits out of the way
+            0 => c.mcf = *rng.pick(&[16, 32, 64]),
+            // the file limit around the stall threshold
+            1 => c.mcf = match rng.below(3) {
+                0 => c.stall_files.saturating_sub(1).max(2),
+                1 => c.stall_files,
+                _ => c.stall_files + rng.range(1, 3),
+            },
+            // byte thresholds and the byte limit
+            2 => {
+                c.stall_bytes = *rng.pick(&[900, 2000, 1 << 28]);
+                c.mand_bytes = *rng.pick(&[200, 500, 5000]);
+                c.mcb = *rng.pick(&[300, 700, 1200, 3000]);
+                c.mcf = *rng.pick(&[8, 64]);
+            }
+            // the open-file limit (cache off so that handles are closed again)
+            _ => {
+                c.cache = 0;
+                c.mof = *rng.pick(&[8, 12, 24]);
+                c.mcf = *rng.pick(&[4, 8, 64]);
+            }
+        }
+        c
+    }
+    fn render(&self) -> String {
+        format!("stall={}f/{}b mand={}f/{}b mcf={} mcb={} mof={} mem={} tf={} cache={}", self.stall_files, self.stall_bytes, self.mand_files, self.mand_bytes, self.mcf, self.mcb, self.mof, self.memtable, self.target_file, self.cache)
+    }
+    fn sel_opts(&self) -> SelOpts {
+        SelOpts { mof: self.mof, mcb: self.mcb, mcf: self.mcf, mand_files: self.mand_files, mand_bytes: self.mand_bytes }
+    }
+    fn options(&self, path: &str) -> lsmtk::LsmtkOptions {
+        use arrrg::CommandLine;
+        let args: Vec<String> = vec![
+            "--path".into(),
+            path.into(),
+            "--memtable-size-bytes".into(),
+            self.memtable.to_string(),
+            "--sst-target-file-size".into(),
+            self.target_file.to_string(),
+            "--sst-minimum-file-size".into(),
+            "64".into(),
+            "--sst-target-block-size".into(),
+            "256".into(),
+            "--l0-mandatory-compaction-threshold-files".into(),
+            self.mand_files.to_string(),
+            "--l0-mandatory-compaction-threshold-bytes".into(),
+            self.mand_bytes.to_string(),
+            "--l0-write-stall-threshold-files".into(),
+            self.stall_files.to_string(),
+            "--l0-write-stall-threshold-bytes".into(),
+            self.stall_bytes.to_string(),
+            "--max-compaction-files".into(),
+            self.mcf.to_string(),
+            "--max-compaction-bytes".into(),
+            self.mcb.to_string(),
+            "--max-open-files".into(),
+            self.mof.to_string(),
+            "--sst-cache-bytes".into(),
+            self.cache.to_string(),
+        ];
+        let refs: Vec<&str> = args.iter().map(|s| s.as_str()).collect();
+        let (opts, free) = lsmtk::LsmtkOptions::from_arguments_relaxed("blueharness", &refs);
+        assert!(free.is_empty(), "free args: {:?}", free);
+        opts
+    }
+}
+
+fn err_text(e: &lsmtk::SError) -> String {
+    let s = format!("{:?}", e);
+    s.chars().take(300).map(|c| if c.is_whitespace() { '_' } else { c }).collect()
+}
+
+/// what the observer inside a running compaction saw
+#[derive(Default)]
+struct Inside {
+    /// the compaction in flight
+    first: Option<lsmtk::verif::ChosenCompaction>,
+    /// the tree and `next_compaction().is_some()` with that compaction in flight
+    status: Option<(Vec<Vec<SelF>>, bool, usize)>,
+    /// the nested selection, performed for real: `None` = not attempted
+    nested: Option<Result<Option<lsmtk::verif::ChosenCompaction>, String>>,
+}
+
+/// one single-stepped selection + compaction.  With `nest`, a second selection is made (and
+/// performed) from inside the first compaction, before its manifest edit: the selector then runs
+/// with one compaction in flight.
+fn sel_compact_step(kvs: &lsmtk::KeyValueStore, nest: bool) -> (Vec<Vec<SelF>>, Result<(), String>, Option<lsmtk::verif::ChosenCompaction>, Inside) {
+    let before = sel_levels_of_meta(&kvs.verif_tree().verif_dump());
+    let sink = std::rc::Rc::new(std::cell::RefCell::new(Inside::default()));
+    let kvs_ptr = kvs as *const lsmtk::KeyValueStore;
+    let sink2 = sink.clone();
+    lsmtk::verif::set_probe(Some(Box::new(move |tag: &'static str| {
+        if tag != "compaction.before_manifest" {
+            return;
+        }
+        // SAFETY: the probe is cleared below, before `kvs` can go away
+        let kvs = unsafe { &*kvs_ptr };
+        let mut out = sink2.borrow_mut();
+        if out.first.is_some() {
+            return;
+        }
+        out.first = lsmtk::verif::take_chosen().into_iter().next();
+        let tree = kvs.verif_tree();
+        let levels = sel_levels_of_meta(&tree.verif_dump());
+        let (_stall, selectable, n) = tree.verif_status();
+        out.status = Some((levels, selectable, n));
+        if nest {
+            // the probe is not re-entered: `verif::probe` takes the observer out while it runs
+            lsmtk::verif::set_single_step(Some(1));
+            let r = kvs.compaction_thread();
+            lsmtk::verif::set_single_step(Some(0));
+            let c2 = lsmtk::verif::take_chosen().into_iter().next();
+            out.nested = Some(r.map(|_| c2).map_err(|e| err_text(&e)));
+        }
+    })));
+    lsmtk::verif::set_single_step(Some(1));
+    let r = kvs.compaction_thread();
+    lsmtk::verif::set_single_step(None);
+    lsmtk::verif::set_probe(None);
+    let mut inside = std::mem::take(&mut *sink.borrow_mut());
+    let chosen = match inside.first.clone() {
+        Some(c) => Some(c),
+        None => lsmtk::verif::take_chosen().into_iter().next(),
+    };
+    if inside.first.is_none() {
+        inside.status = None;
+    }
+    (before, r.map_err(|e| format!("compaction-error:{}", err_text(&e))), chosen, inside)
+}
+
+fn sel_keys(n: usize) -> Vec<Vec<u8>> {
+    (0..n).map(|i| format!("k{:02}", i).into_bytes()).collect()
+}
+
+fn run_sel_history(rec: &mut Recorder, seed: u64, h: u64, len: usize) {
+    let mut rng = Rng::for_case(seed, 102, h);
+    let kind = h % 4;
+    let cfg = SelCfg::gen(&mut rng, kind);
+    let so = cfg.sel_opts();
+    let nkeys = *rng.pick(&[3usize, 6, 12, 30]);
+    let keys = sel_keys(nkeys);
+    // which keys a write touches: 0 = a few random keys; 1 = the same plus the smallest and the
+    // largest key (every file spans the key space: nothing moves past anything, the levels fill up
+    // one file each and every later flush forces a merge); 2 = the two ends of a random interval of
+    // the alphabet plus some keys inside (partially overlapping and nested ranges: the fixed point
+    // of compute_bounds and expand_compaction have work to do)
+    let shape = (h / 4) % 3;
+    let wide = shape == 1;
+    // 0: compaction steps at random; 1: after every flush the compaction loop runs until it
+    // finds nothing (bounded)
+    let drain = shape != 0 || rng.chance(1, 2);
+    let p_compact = if drain { 0 } else { *rng.pick(&[15u64, 30, 50]) };
+    let nest = h % 3 != 2;
+    rec.aux(&format!("sel-history {} kind {} {} nkeys {} shape {} drain {} pc {} nest {}", h, kind, cfg.render(), nkeys, shape, drain, p_compact, nest));
+    rec.count(&format!("selhist.shape{}", shape));
+    rec.count(&format!("selhist.kind{}", kind));
+    let root = scratch_dir(&format!("c01s.{}", h));
+    let kvs = match lsmtk::KeyValueStore::open(cfg.options(&root)) {
+        Ok(k) => k,
+        Err(e) => {
+            rec.case(&format!("# sel-history {} open", h), "#", Verdict::Fail { class: "open-error".into(), detail: err_text(&e) }, None);
+            return;
+        }
+    };
+    let mut oracle: std::collections::BTreeMap<Vec<u8>, Vec<u8>> = Default::default();
+    let mut counter = 0u64;
+    let mut moves_seen = 0u64;
+    'steps: for step in 0..len {
+        let tag = format!("sel-history {} step {}", h, step);
+        let r = rng.below(100);
+        let res: Result<(), String> = guarded(std::panic::AssertUnwindSafe(|| -> Result<(), String> {
+            let mut flushed = false;
+            if r >= p_compact {
+                let n = rng.range(1, 4) as usize;
+                let mut ks: Vec<Vec<u8>> = (0..n).map(|_| rng.pick(&keys).clone()).collect();
+                if wide {
+                    ks.push(keys[0].clone());
+                    ks.push(keys[nkeys - 1].clone());
+                }
+                if shape == 2 {
+                    let a = rng.below(nkeys as u64) as usize;
+                    let b = (a + rng.below(1 + nkeys as u64 / 2) as usize).min(nkeys - 1);
+                    ks = vec![keys[a].clone(), keys[b].clone()];
+                    for _ in 0..rng.below(3) {
+                        ks.push(keys[rng.range(a as u64, b as u64) as usize].clone());
+                    }
+                }
+                ks.sort();
+                ks.dedup();
+                let vlen = rng.range(2, 40) as usize;
+                let mut wb = lsmtk::WriteBatch::with_capacity(ks.len());
+                let mut vals = vec![];
+                for k in &ks {
+                    counter += 1;
+                    let mut v = format!("v{}", counter).into_bytes();
+                    v.extend(std::iter::repeat(b'.').take(vlen));
+                    wb.put(k, &v);
+                    vals.push((k.clone(), v));
+                }
+                kvs.write(wb).map_err(|e| format!("write-error:{}", err_text(&e)))?;
+                for (k, v) in vals {
+                    oracle.insert(k, v);
+                }
+                if drain || rng.chance(2, 3) {
+                    let (mem, _) = kvs.verif_dump_mem().map_err(|e| err_text(&e))?;
+                    let (stall, _, _) = kvs.verif_tree().verif_status();
+                    if !mem.is_empty() && !stall {
+                        kvs.verif_request_flush();
+                        lsmtk::verif::set_single_step(Some(0));
+                        let r = kvs.memtable_thread();
+                        lsmtk::verif::set_single_step(None);
+                        r.map_err(|e| format!("flush-error:{}", err_text(&e)))?;
+                        rec.count("selhist.flush");
+                        flushed = true;
+                    } else if stall {
+                        flushed = true; // let the compaction loop relieve the stall
+                    }
+                }
+            }
+            if r < p_compact || (drain && flushed) {
+                // withheld now and then, so that level 0 holds more than one file when the loop runs
+                let steps = if drain { if rng.chance(1, 3) { 0 } else { 24 } } else { rng.range(1, 4) };
+                for _ in 0..steps {
+                    let (before, res, chosen, inside) = sel_compact_step(&kvs, nest);
+                    let v = select_oracle(&so, &before, &[], chosen.as_ref(), &tag);
+                    // trivial moves dominate (a flushed file moves down alone while there is room):
+                    // every third of them is compared here, every one in the store histories above
+                    let is_move = chosen.as_ref().map(|c| c.inputs.len() == 1).unwrap_or(false);
+                    if is_move {
+                        moves_seen += 1;
+                    }
+                    match v {
+                        Verdict::Ok if is_move && moves_seen % 3 != 0 => rec.count("selhist.trivial_move_not_compared"),
+                        v => select_case(rec, "full", &so, &before, &[], &render_chosen(chosen.as_ref()), v),
+                    }
+                    match &chosen {
+                        None => rec.count("selhist.none"),
+                        Some(c) if c.inputs.len() == 1 => rec.count("selhist.trivial_move"),
+                        Some(c) if c.upper_level == lsmtk::NUM_LEVELS - 1 => rec.count("selhist.gc"),
+                        Some(_) => rec.count("selhist.merge"),
+                    }
+                    if let Some(c) = &chosen {
+                        if c.inputs.len() as u64 > so.mcf {
+                            rec.count("selhist.inputs_exceed_max_compaction_files");
+                        }
+                    }
+                    if let (Some(c1), Some((levels, selectable, n))) = (&inside.first, &inside.status) {
+                        let og = [c1.clone()];
+                        let v = if *n == 1 { Verdict::Ok } else { Verdict::Fail { class: "in-flight-count-wrong".into(), detail: format!("{} ongoing {}", tag, n) } };
+                        select_case(rec, "some", &so, levels, &og, if *selectable { "some" } else { "none" }, v);
+                        rec.count(if *selectable { "selhist.inflight.some" } else { "selhist.inflight.none" });
+                        match &inside.nested {
+                            Some(Ok(c2)) => {
+                                let v = select_oracle(&so, levels, &og, c2.as_ref(), &tag);
+                                select_case(rec, "full", &so, levels, &og, &render_chosen(c2.as_ref()), v);
+                                rec.count(if c2.is_some() { "selhist.nested.chosen" } else { "selhist.nested.none" });
+                            }
+                            Some(Err(e)) => return Err(format!("nested-{}", e)),
+                            None => {}
+                        }
+                    }
+                    res?;
+                    if chosen.is_none() {
+                        break;
+                    }
+                }
+            }
+            Ok(())
+        }))
+        .unwrap_or_else(|p| Err(format!("panic:{}", p)));
+        if let Err(e) = res {
+            let refused = e.contains("TooManyOpenFiles") || e.contains("too_many_open_files") || e.contains("too many open files");
+            if refused {
+                rec.count("selhist.history_ended_by_open_file_limit");
+            } else {
+                rec.case(&format!("# {}", tag), "#", Verdict::Fail { class: "fault-free-op-error".into(), detail: format!("{} {} -> {}", tag, cfg.render(), e) }, None);
+            }
+            break 'steps;
+        }
+        // reads against the sequential map (the nested compactions are real)
+        let mut bad = vec![];
+        for k in &keys {
+            let mut tomb = false;
+            match kvs.load(k, &mut tomb) {
+                Ok(got) => {
+                    if got.as_ref() != oracle.get(k) {
+                        bad.push(format!("key {} got {:?} want {:?}", hex(k), got.as_ref().map(|v| hex(v)), oracle.get(k).map(|v| hex(v))));
+                    }
+                }
+                Err(e) => bad.push(format!("key {} load error {}", hex(k), err_text(&e))),
+            }
+        }
+        if !bad.is_empty() {
+            rec.case(&format!("# {} reads", tag), "#", Verdict::Fail { class: "stale-or-wrong-read".into(), detail: format!("{} {}", tag, bad.join("; ")) }, None);
+            break 'steps;
+        }
+        rec.count("selhist.steps");
+    }
+    drop(kvs);
+    let _ = std::fs::remove_dir_all(&root);
+}
+
 pub fn run(args: &Args) {
     let mut rec = Recorder::new(&args.out, args.only_case);
     let (nh, len) = if args.thorough { (250, 120) } else { (100, 60) };
@@ -290,8 +884,13 @@ pub fn run(args: &Args) {
         let nkeys = if h % 3 == 0 { 4 } else if h % 3 == 1 { 7 } else { 12 };
         run_history(&mut rec, args.seed, h, len, nkeys);
     }
+    f64_cases(&mut rec, args.seed, if args.thorough { 2000 } else { 400 });
+    let (nsh, shlen) = if args.thorough { (150, 160) } else { (48, 90) };
+    for h in 0..nsh {
+        run_sel_history(&mut rec, args.seed, h, shlen);
+    }
     rec.finish(
-        "seeded store histories (put/del/batch/flush/compaction steps/reopen; keys from a 4-12 key adversarial alphabet, ~30% tombstones, options grid memtable x file size x block size x L0 thresholds x max compaction files x gc versions x manifest rollover ratio) on the real KeyValueStore, flush and compaction loops single-stepped; after every op: reads of every key vs. sequential map and vs. the Lean model on the dumped state, invariants I1/I2 on the dumped state, closedness of each chosen compaction; non-trivial = a read step at which some key has versions in >= 2 components; distinct by dumped state",
+        "seeded store histories (put/del/batch/flush/compaction steps/reopen; keys from a 4-12 key adversarial alphabet, ~30% tombstones, options grid memtable x file size x block size x L0 thresholds x max compaction files x gc versions x manifest rollover ratio) on the real KeyValueStore, flush and compaction loops single-stepped; after every op: reads of every key vs. sequential map and vs. the Lean model on the dumped state, invariants I1/I2 on the dumped state, closedness of each chosen compaction; the selector as a function (Lean nextCompaction vs Version::next_compaction: levels, key range, input ids in order) at every compaction step and, as is_some, on every state; selhist: selector-centred histories (options grid stall/mandatory thresholds x max_compaction_files at/below/above the stall threshold x max_compaction_bytes x max_open_files x memtable x file size) with the selection compared at every compaction step, again with one compaction in flight (asked inside the running compaction, the nested choice performed) and reads checked against a sequential map; f64: the level-curve / level-factor tables and seeded (level, score) pairs of ceil(score as f64 * level_factor) as i64; non-trivial = a read step at which some key has versions in >= 2 components, or a selection on a tree of >= 3 files; distinct by dumped state",
         &[],
     );
 }
